@@ -9,7 +9,7 @@ package main
 //   FEAT, TOKS := the lossy-feature flags and the token stream of the base (svgbase.go), also made with encoding/xml only
 //   MASK := ~ | + n (id value)^n
 //   ROT  := n (token fmt fmt90 zero90:01)^n     fmt.Sprintf("%03f") of every rotation token of T, and of value+90
-//   OUT  := PR nil strEmpty:01 | PR doc strEmpty:01 kept:01 kept2:01 wellformed:01 tail:01 n NODE^n
+//   OUT  := PR nil strEmpty:01 args:01 again:01 | PR doc strEmpty:01 kept:01 kept2:01 keptMod:01 wellformed:01 tail:01 args:01 again:01 n NODE^n
 //   PR   := err | noroot | root                 what the real xmldom.ParseXML(base) returned
 //   NODE := name:hex nA (key:hex value:hex)^nA text:hex printed:hex            printed = node.XML()
 //
@@ -20,6 +20,21 @@ package main
 //         attributes in order, end elements, non-blank character data (trimmed; CDATA sections arrive as character data),
 //         comments, processing instructions, directives) is, in order, a subsequence of the token stream of doc.XML()
 //         and of doc.XMLPretty().
+// keptMod = "kept modulo the named lossy features" (normalForm below, encoding/xml only): base and printed document are
+//         compared after deleting from BOTH exactly what the known findings cover - comments; name prefixes; every processing
+//         instruction when the base has one that is not its first token; non-blank character data that is not the last thing
+//         in its element.  What is left of the base must be, in order, within what is left of doc.XML() and of doc.XMLPretty().
+//         A loss on a base WITH such a feature that the feature does not explain shows here (kept2 is 0 on such a base anyway).
+// args  = after every call of the library in this record the availability map equals a deep copy taken before the first call
+//         (the only argument a callee can modify: the others are strings and booleans)
+// again = calling again with the SAME argument objects gives the same document (GenerateCompositeSVGdoc twice: both nil or
+//         the same doc.XML(); the first document still prints the same after the second call), and the string wrapper
+//         GenerateCompositeSVG returns XMLPretty() of the document for the default render switches ("" for nil)
+//
+//   svg.seq MASK k (showLabels showHWCID showType showDisplaySize base:hex kinds:hex endOk:01 FEAT TOKS ROT T)^k  |  OUT (; OUT)^(k-1)
+//         k calls as in svg.gen that share ONE availability map object (built once from MASK) and ONE Topology object into
+//         which each T is assigned in place and whose ToJSON() is the topology argument: the same (topology, map) before and
+//         after other topologies were rendered; every call is judged like a svg.gen record.
 // wellformed = both printed documents tokenize to EOF with matching tags (Decoder.Token), have exactly one root element,
 //         no character data outside it and no start element with the same attribute name twice.
 // tail  = doc.XML() / doc.XMLPretty() end with the node.XML() texts of the appended elements (indented, one per line,
@@ -230,6 +245,230 @@ func encXMLNode(n *xmldom.Node) []string {
 	return append(o, hx([]byte(n.Text)), hx([]byte(n.XML())))
 }
 
+func decBase(r *tokReader) string {
+	base := r.str()
+	// the token summary is input for model and Spec; it must be the one encoding/xml gives for this base
+	for _, want := range baseSummary(base) {
+		if r.next() != want {
+			panic("bad record: token summary does not belong to the base document")
+		}
+	}
+	return base
+}
+
+func decMask(r *tokReader) map[uint32]uint32 {
+	switch r.next() {
+	case "~":
+		return nil
+	case "+":
+		m := map[uint32]uint32{}
+		n := r.int()
+		for i := 0; i < n; i++ {
+			k := r.u32()
+			m[k] = r.u32()
+		}
+		return m
+	}
+	panic("bad mask marker")
+}
+
+func skipRot(r *tokReader) {
+	nr := r.int()
+	for i := 0; i < 4*nr; i++ {
+		r.next()
+	}
+}
+
+func sameMap(a, b map[uint32]uint32) bool {
+	if (a == nil) != (b == nil) || len(a) != len(b) {
+		return false
+	}
+	for k, v := range a {
+		if w, ok := b[k]; !ok || w != v {
+			return false
+		}
+	}
+	return true
+}
+
+// normalForm: the token stream of a document (RawToken) after deleting what the known lossy features cover.
+// Written from the feature definitions (Spec/SvgBaseSpec.lean, header of svgbase.go), with encoding/xml only.
+func normalForm(doc string, dropPI bool) ([]string, bool) {
+	type nt struct {
+		kind byte // S E C (non-blank text) W (blank text) P D
+		s    string
+	}
+	d := xml.NewDecoder(strings.NewReader(doc))
+	var raw []nt
+	for {
+		t, err := d.RawToken()
+		if err == io.EOF {
+			break
+		}
+		if err != nil {
+			return nil, false
+		}
+		switch x := t.(type) {
+		case xml.StartElement:
+			var sb strings.Builder
+			sb.WriteString("S " + x.Name.Local) // ns-prefix: the prefix is not compared
+			for _, a := range x.Attr {
+				sb.WriteString(" " + a.Name.Local + "=" + strconv.Quote(a.Value))
+			}
+			raw = append(raw, nt{'S', sb.String()})
+		case xml.EndElement:
+			raw = append(raw, nt{'E', "E " + x.Name.Local})
+		case xml.CharData:
+			if tr := bytes.TrimSpace(x); len(tr) > 0 {
+				raw = append(raw, nt{'C', "C " + strconv.Quote(string(tr))})
+			} else {
+				raw = append(raw, nt{'W', ""})
+			}
+		case xml.Comment: // comment: not compared
+		case xml.ProcInst:
+			if !dropPI { // pi: none is compared when the base has one that is not its first token
+				raw = append(raw, nt{'P', "P " + x.Target + " " + strconv.Quote(string(bytes.TrimSpace(x.Inst)))})
+			}
+		case xml.Directive:
+			raw = append(raw, nt{'D', "D " + strconv.Quote(string(x))})
+		}
+	}
+	var out []string
+	for i, t := range raw {
+		if t.kind == 'W' {
+			continue
+		}
+		if t.kind == 'C' {
+			// mixed-text: character data whose next start tag / end tag / character data is not an end tag is not compared
+			next := byte(0)
+			for _, u := range raw[i+1:] {
+				if u.kind == 'S' || u.kind == 'E' || u.kind == 'C' || u.kind == 'W' {
+					next = u.kind
+					break
+				}
+			}
+			if next != 'E' {
+				continue
+			}
+		}
+		out = append(out, t.s)
+	}
+	return out, true
+}
+
+// piNotFirst: the document has a processing instruction that is not its first non-blank token
+func piNotFirst(doc string) bool {
+	d := xml.NewDecoder(strings.NewReader(doc))
+	first := true
+	for {
+		t, err := d.RawToken()
+		if err != nil {
+			return false
+		}
+		switch x := t.(type) {
+		case xml.ProcInst:
+			if !first {
+				return true
+			}
+		case xml.CharData:
+			if len(bytes.TrimSpace(x)) == 0 {
+				continue
+			}
+		}
+		first = false
+	}
+}
+
+func keptModulo(base, printed string) bool {
+	dropPI := piNotFirst(base)
+	bt, ok1 := normalForm(base, dropPI)
+	pt, ok2 := normalForm(printed, dropPI)
+	return ok1 && ok2 && isSubsequence(bt, pt)
+}
+
+// svgCall: the library on one set of arguments (theMap is the caller's object, possibly used before), everything observed
+func svgCall(o [4]bool, base string, theMap map[uint32]uint32, topoJSON string) []string {
+	var mapBefore map[uint32]uint32
+	if theMap != nil {
+		mapBefore = map[uint32]uint32{}
+		for k, v := range theMap {
+			mapBefore[k] = v
+		}
+	}
+	argsKept := true
+	var doc, doc2, docDef *xmldom.Document
+	var str string
+	quietly(func() {
+		doc = topology.GenerateCompositeSVGdoc(topoJSON, base, theMap, o[0], o[1], o[2], o[3])
+	})
+	argsKept = argsKept && sameMap(theMap, mapBefore)
+	first := ""
+	if doc != nil {
+		first = doc.XML()
+	}
+	quietly(func() {
+		doc2 = topology.GenerateCompositeSVGdoc(topoJSON, base, theMap, o[0], o[1], o[2], o[3])
+	})
+	argsKept = argsKept && sameMap(theMap, mapBefore)
+	again := (doc == nil) == (doc2 == nil)
+	if doc != nil && doc2 != nil {
+		again = doc2.XML() == first && doc.XML() == first
+	}
+	quietly(func() {
+		str = topology.GenerateCompositeSVG(topoJSON, base, theMap)
+	})
+	argsKept = argsKept && sameMap(theMap, mapBefore)
+	quietly(func() {
+		docDef = topology.GenerateCompositeSVGdoc(topoJSON, base, theMap, true, true, false, false)
+	})
+	argsKept = argsKept && sameMap(theMap, mapBefore)
+	if docDef == nil {
+		again = again && str == ""
+	} else {
+		again = again && str == docDef.XMLPretty()
+	}
+	if doc != nil {
+		again = again && doc.XML() == first
+	}
+	// the outcome of the real parser on the base
+	pr := "err"
+	var before *xmldom.Document
+	quietly(func() {
+		if d, err := xmldom.ParseXML(base); err == nil {
+			before = d
+			pr = "noroot"
+			if d.Root != nil {
+				pr = "root"
+			}
+		}
+	})
+	if doc == nil {
+		return []string{pr, "nil", b01(str == ""), b01(argsKept), b01(again)}
+	}
+	nBase := 0
+	kept := false
+	if before != nil && before.Root != nil {
+		nBase = len(before.Root.Children)
+		kept = dumpBasePart(before.Root, nBase) == dumpBasePart(doc.Root, nBase) && len(doc.Root.Children) >= nBase
+	}
+	compact, pretty := doc.XML(), doc.XMLPretty()
+	kept2 := keptTokens(base, compact) && keptTokens(base, pretty)
+	keptMod := keptModulo(base, compact) && keptModulo(base, pretty)
+	wf := wellFormedDoc(compact) && wellFormedDoc(pretty)
+	var ac, ap strings.Builder
+	for _, c := range doc.Root.Children[nBase:] {
+		ac.WriteString(c.XML())
+		ap.WriteString("  " + c.XML() + "\n")
+	}
+	tail := printedTail(compact, doc.Root.Name, ac.String(), false) && printedTail(pretty, doc.Root.Name, ap.String(), true)
+	res := []string{pr, "doc", b01(str == ""), b01(kept), b01(kept2), b01(keptMod), b01(wf), b01(tail), b01(argsKept), b01(again),
+		itoa(len(doc.Root.Children) - nBase)}
+	for _, c := range doc.Root.Children[nBase:] {
+		res = append(res, encXMLNode(c)...)
+	}
+	return res
+}
+
 type svgExec struct{}
 
 func (e *svgExec) Exec(cmd string, a []string) string {
@@ -244,81 +483,33 @@ func (e *svgExec) Exec(cmd string, a []string) string {
 			res = []string{hx([]byte(n.XML()))}
 			return
 		}
+		if cmd == "svg.seq" {
+			r := &tokReader{t: a}
+			theMap := decMask(r)
+			k := r.int()
+			top := &topology.Topology{}
+			for i := 0; i < k; i++ {
+				o := [4]bool{r.next() == "1", r.next() == "1", r.next() == "1", r.next() == "1"}
+				base := decBase(r)
+				skipRot(r)
+				assignTopo(top, decTopo(r), true)
+				if i > 0 {
+					res = append(res, ";")
+				}
+				res = append(res, svgCall(o, base, theMap, top.ToJSON())...)
+			}
+			return
+		}
 		if cmd != "svg.gen" {
 			panic("unknown record " + cmd)
 		}
 		r := &tokReader{t: a}
-		o1, o2, o3, o4 := r.next() == "1", r.next() == "1", r.next() == "1", r.next() == "1"
-		base := r.str()
-		// the token summary is input for model and Spec; it must be the one encoding/xml gives for this base
-		for _, want := range baseSummary(base) {
-			if r.next() != want {
-				panic("bad record: token summary does not belong to the base document")
-			}
-		}
-		var theMap map[uint32]uint32
-		switch r.next() {
-		case "~":
-		case "+":
-			theMap = map[uint32]uint32{}
-			n := r.int()
-			for i := 0; i < n; i++ {
-				k := r.u32()
-				theMap[k] = r.u32()
-			}
-		default:
-			panic("bad mask marker")
-		}
-		nr := r.int()
-		for i := 0; i < nr; i++ {
-			r.next()
-			r.next()
-			r.next()
-			r.next()
-		}
+		o := [4]bool{r.next() == "1", r.next() == "1", r.next() == "1", r.next() == "1"}
+		base := decBase(r)
+		theMap := decMask(r)
+		skipRot(r)
 		top := decTopo(r)
-		topoJSON := top.ToJSON()
-		var doc *xmldom.Document
-		var str string
-		quietly(func() {
-			doc = topology.GenerateCompositeSVGdoc(topoJSON, base, theMap, o1, o2, o3, o4)
-			str = topology.GenerateCompositeSVG(topoJSON, base, theMap)
-		})
-		// the outcome of the real parser on the base
-		pr := "err"
-		var before *xmldom.Document
-		quietly(func() {
-			if d, err := xmldom.ParseXML(base); err == nil {
-				before = d
-				pr = "noroot"
-				if d.Root != nil {
-					pr = "root"
-				}
-			}
-		})
-		if doc == nil {
-			res = []string{pr, "nil", b01(str == "")}
-			return
-		}
-		nBase := 0
-		kept := false
-		if before != nil && before.Root != nil {
-			nBase = len(before.Root.Children)
-			kept = dumpBasePart(before.Root, nBase) == dumpBasePart(doc.Root, nBase) && len(doc.Root.Children) >= nBase
-		}
-		compact, pretty := doc.XML(), doc.XMLPretty()
-		kept2 := keptTokens(base, compact) && keptTokens(base, pretty)
-		wf := wellFormedDoc(compact) && wellFormedDoc(pretty)
-		var ac, ap strings.Builder
-		for _, c := range doc.Root.Children[nBase:] {
-			ac.WriteString(c.XML())
-			ap.WriteString("  " + c.XML() + "\n")
-		}
-		tail := printedTail(compact, doc.Root.Name, ac.String(), false) && printedTail(pretty, doc.Root.Name, ap.String(), true)
-		res = []string{pr, "doc", b01(str == ""), b01(kept), b01(kept2), b01(wf), b01(tail), itoa(len(doc.Root.Children) - nBase)}
-		for _, c := range doc.Root.Children[nBase:] {
-			res = append(res, encXMLNode(c)...)
-		}
+		res = svgCall(o, base, theMap, top.ToJSON())
 	})
 	if p != "" {
 		return p
@@ -470,64 +661,119 @@ func genC15(r *Rng, sessions int, tier string) {
 		}
 		nvariants := 2
 		for v := 0; v < nvariants; v++ {
-			o := []bool{true, true, false, false}
-			if r.Chance(40) {
-				o = []bool{r.Bool(), r.Bool(), r.Bool(), r.Bool()}
-			}
-			var base string
-			switch k := r.Intn(100); {
-			case k < 30:
-				base = baseSVGs[r.Intn(validBases)]
-			case k < 45:
-				base = baseSVGs[r.Intn(len(baseSVGs))]
-			case k < 57:
-				base = lossyBases[r.Intn(len(lossyBases))]
-			case k < 62:
-				base = rejectedBases[r.Intn(len(rejectedBases))]
-			default:
-				base = grammarBase(r)
-			}
+			o := g.svgOpts()
+			base := g.svgBase()
 			args := []string{b01(o[0]), b01(o[1]), b01(o[2]), b01(o[3]), hx([]byte(base))}
 			args = append(args, baseSummary(base)...)
-			// availability map: nil, empty, all available, all masked, random subset (values 0 / non-zero), foreign ids
-			switch r.Intn(6) {
-			case 0, 1:
-				args = append(args, "~")
-			case 2:
-				args = append(args, "+", "0")
-			default:
-				ids := []uint32{}
-				seen := map[uint32]bool{}
-				for _, c := range t.HWc {
-					if !seen[c.Id] && r.Chance(85) {
-						seen[c.Id] = true
-						ids = append(ids, c.Id)
-					}
-				}
-				if r.Chance(30) {
-					x := uint32(r.Range(20, 30))
-					if !seen[x] {
-						ids = append(ids, x)
-					}
-				}
-				sort.Slice(ids, func(i, j int) bool { return ids[i] < ids[j] })
-				mode := r.Intn(3)
-				args = append(args, "+", itoa(len(ids)))
-				for _, id := range ids {
-					v := uint32(0)
-					if mode == 0 || (mode == 2 && r.Bool()) {
-						v = uint32(r.Pick(1, 1, 2, 255, 4294967295))
-					}
-					args = append(args, utoa(id), utoa(v))
-				}
-			}
+			args = append(args, g.svgMask(t)...)
 			args = append(args, rotTable(t)...)
 			toks := encTopo(t)
 			args = append(args, toks...)
 			args = append(args, fingerprint(toks))
 			emitS("svg.gen", args)
 		}
+		// the same availability map OBJECT and the same Topology object through several renderings: (T, base) first, then
+		// one or two changed topologies (as a caller edits them through the exported fields) and / or other base documents,
+		// then (T, base) again.  (Base documents without a lossy feature only: the known findings are classified on svg.gen records.)
+		if r.Chance(35) {
+			o := g.svgOpts()
+			base := g.svgBasePlain()
+			call := func(o []bool, base string, t *topology.Topology) []string {
+				a := []string{b01(o[0]), b01(o[1]), b01(o[2]), b01(o[3]), hx([]byte(base))}
+				a = append(a, baseSummary(base)...)
+				a = append(a, rotTable(t)...)
+				return append(a, encTopo(t)...)
+			}
+			calls := [][]string{call(o, base, t)}
+			cur := t
+			for n := r.Range(1, 2); n > 0; n-- {
+				cur = g.mutate(cur)
+				b2, o2 := base, o
+				if r.Chance(40) {
+					b2 = g.svgBasePlain()
+				}
+				if r.Chance(30) {
+					o2 = g.svgOpts()
+				}
+				calls = append(calls, call(o2, b2, cur))
+			}
+			calls = append(calls, call(o, base, t))
+			args := append(g.svgMask(t), itoa(len(calls)))
+			for _, c := range calls {
+				args = append(args, c...)
+			}
+			args = append(args, fingerprint(args))
+			emitS("svg.seq", args)
+		}
 	}
+}
+
+func (g *topoGen) svgOpts() []bool {
+	r := g.r
+	if r.Chance(40) {
+		return []bool{r.Bool(), r.Bool(), r.Bool(), r.Bool()}
+	}
+	return []bool{true, true, false, false}
+}
+
+func (g *topoGen) svgBase() string {
+	r := g.r
+	switch k := r.Intn(100); {
+	case k < 30:
+		return baseSVGs[r.Intn(validBases)]
+	case k < 45:
+		return baseSVGs[r.Intn(len(baseSVGs))]
+	case k < 57:
+		return lossyBases[r.Intn(len(lossyBases))]
+	case k < 62:
+		return rejectedBases[r.Intn(len(rejectedBases))]
+	}
+	return grammarBase(r)
+}
+
+// svgBasePlain: a base document (valid or not) that has none of the features under which failures are known findings
+func (g *topoGen) svgBasePlain() string {
+	for {
+		if b := g.svgBase(); baseSummary(b)[2] == "F:-" {
+			return b
+		}
+	}
+}
+
+// availability map: nil, empty, all available, all masked, random subset (values 0 / non-zero), foreign ids
+func (g *topoGen) svgMask(t *topology.Topology) []string {
+	r := g.r
+	switch r.Intn(6) {
+	case 0, 1:
+		return []string{"~"}
+	case 2:
+		return []string{"+", "0"}
+	}
+	ids := []uint32{}
+	seen := map[uint32]bool{}
+	for _, c := range t.HWc {
+		if !seen[c.Id] && r.Chance(85) {
+			seen[c.Id] = true
+			ids = append(ids, c.Id)
+		}
+	}
+	if r.Chance(30) {
+		x := uint32(r.Range(20, 30))
+		if !seen[x] {
+			ids = append(ids, x)
+		}
+	}
+	sort.Slice(ids, func(i, j int) bool { return ids[i] < ids[j] })
+	mode := r.Intn(3)
+	args := []string{"+", itoa(len(ids))}
+	for _, id := range ids {
+		v := uint32(0)
+		if mode == 0 || (mode == 2 && r.Bool()) {
+			v = uint32(r.Pick(1, 1, 2, 255, 4294967295))
+		}
+		args = append(args, utoa(id), utoa(v))
+	}
+	return args
 }
 
 // svgText: text for the printer: ASCII incl. everything escaped, control bytes, valid multi-byte runes incl. the
